@@ -34,6 +34,9 @@ ASSUMPTIONS = [
   "MIDPHASE/AUTORESET/OVERRIDE/FWDINV are rejected by put_model",
   "models use primitive collision pairs only (plane/sphere/capsule), so MULTICCD has nothing to act on (parity of the flag "
   "being harmless is still checked); CCD pairs are excluded because MJWarp's and MuJoCo's CCD normals differ at flat optima (C04)",
+  "WARMSTART only changes the solver's starting point: at convergence it is observable only within the solver class, so a "
+  "wrongly ignored WARMSTART flag is not detectable here (a one-iteration budget was tried: the engines' intermediate iterates "
+  "are not comparable); INVDISCRETE only acts in inverse dynamics, which step() does not call",
   "real values from curated alphabets (VERIF_SEED mod 4)",
 ]
 BUDGET = {"quick": 600, "thorough": 3000}
@@ -189,8 +192,7 @@ def model_xml(name, v):
     sections=sections,
     collide=True,
     body_extra=lambda i: "",
-    # a single solver iteration: the result then depends on the starting point, which makes WARMSTART observable
-    option='<option timestep="0.004" iterations="1"/>',
+    option='<option timestep="0.004"/>',
   ).replace('<body name="b1"', '<body name="b1" gravcomp="0.6"', 1)
 
 
